@@ -291,15 +291,18 @@ def validate_rows(lines, workdir, name, timeout=3000, weight=None):
         for b in bad:
             b["row"] = idx[b["row"] - 1]
         gen, dist = parse_states(out)
-        return bad, json.loads(tags["STAT"][-1])["rows"], gen, dist
+        st = json.loads(tags["STAT"][-1])
+        return bad, st["rows"], gen, dist, st.get("drift", 0)
 
     bad, rows, gen, dist = [], 0, 0, 0
+    validate_rows.last_drift = 0
     with ThreadPoolExecutor(max_workers=12) as ex:
-        for b, n, g, d in ex.map(one, files):
+        for b, n, g, d, dr in ex.map(one, files):
             bad += b
             rows += n
             gen += g
             dist += d
+            validate_rows.last_drift += dr
     for fn, _ in files:
         try:
             os.remove(fn)
